@@ -177,6 +177,23 @@ def level2():
             yield ("thresh", k, (x, y, z))
 
 
+def level2b():
+    """Binary combinators with one argument under TWO wrappers (su:, sl:, dv:, ...), over a reduced leaf set.  Not filtered
+    by what is well typed on its own: whether the composition types is the parser's to say, each time."""
+    base = [LEAVES[0], LEAVES[1], LEAVES[4], LEAVES[5], LEAVES[6], LEAVES[7], LEAVES[9], LEAVES[11]]
+    twice = [("wrap", w1, ("wrap", w2, leaf)) for leaf in base for w1, w2 in itertools.product(WR, repeat=2)]
+    one, _ = level3_parts()
+    for op in BIN:
+        for x in twice:
+            for y in one:
+                yield ("op", op, (x, y))
+                yield ("op", op, (y, x))
+    for k in (1, 2):
+        for x in twice:
+            for y in one[:21]:
+                yield ("thresh", k, (y, x))
+
+
 def level3_parts():
     """Depth 3 over a reduced leaf set: an inner combinator (wrapped or not) as either argument of an outer one."""
     base = [LEAVES[4], LEAVES[5], LEAVES[6], LEAVES[7], LEAVES[11]]  # pk(A) pkh(B) pk(C) older(1) sha256
@@ -271,7 +288,7 @@ def _enumerate(ctx_obj, depth3=True):
     """-> {ctx: [asts]} of every expression string to try."""
     l1 = level1()
     l2 = list(level2())
-    return l1 + l2
+    return l1 + l2 + list(level2b())
 
 
 def static(ctx):
@@ -427,7 +444,7 @@ def satisfaction(ctx):
     for c in ("P2WSH", "tapscript"):
         inner_ok = _well_typed(c, inner)
         # quick: every depth-3 nesting with the inner combinator unwrapped; thorough: under every outer wrapper as well
-        cand = list(itertools.chain(level1(), level2(), level3(inner_ok, one, ctx.pick(("",), ("", "v", "s", "a", "j", "n", "d", "t", "l", "u")))))
+        cand = list(itertools.chain(level1(), level2(), level2b(), level3(inner_ok, one, ctx.pick(("",), ("", "v", "s", "a", "j", "n", "d", "t", "l", "u")))))
         # the parser and is_sane decide, in parallel
         sane = []
         with_notes = [_sane_collect(ctx, c, cand)]
